@@ -180,10 +180,32 @@ def _comments(pp):
     ]
 
 
+def _warm(pp):
+    """a WARM interpreter: the setup itself prints a few hundred distinct long strings and the scenario values, so that whatever the
+    package remembers between calls (bounded caches included) is populated - possibly to capacity - before the two threads start; one
+    thread then prints a value it has printed before, the other a value with many strings never seen"""
+    import warnings
+    seen = [['%s %03d ' % (w, i) * 12 for i in range(1)] for w in ('alpha', 'beta', 'gamma')]
+    never = ['never seen %03d ' % i * 10 for i in range(70)]
+    more_bytes = [b'bin %03d ' % i * 12 for i in range(70)]
+    with warnings.catch_warnings():
+        warnings.simplefilter('ignore')
+        for i in range(300):
+            pp.pformat(['warm-up %03d ' % i * 11], width=40)
+        # the values that will be printed again go last, three times over: whatever a bounded cache evicted while the first round was
+        # inserted is back after the second, and nothing is inserted (or evicted) by the third
+        for _ in range(3):
+            for v in seen:
+                pp.pformat(v, width=40)
+            pp.pformat({'k': seen[2][0]}, width=40)
+    return [seen[0], never, seen[1], more_bytes, {'k': seen[2][0]}]
+
+
 def scenarios():
     return [
         ('core', _core, [{}, {'width': 12}]),
         ('comments', _comments, [{}]),
+        ('warm', _warm, [{'width': 40}]),
         ('stdlib', _stdlib, [{}]),
         ('extras', _extras, [{}, {'width': 16}]),
     ]
